@@ -57,7 +57,7 @@ def unambiguous(v, name):
     return all(n == 1 for n in structure_info(v, name)['occ'].values())
 
 
-def gen(ref, mode, depth=0, opt=None, path=()):
+def gen(ref, mode, depth=0, opt=None, path=(), keep_empty=False):
     """children list for the sequence `ref` under the given mode.
     mode: 'required' | 'all' | 'rep2' | ('opt', path_of_optional_child)"""
     out = []
@@ -96,11 +96,11 @@ def gen(ref, mode, depth=0, opt=None, path=()):
                 sub_mode = mode
                 if isinstance(mode, tuple) and here == mode[1]:
                     sub_mode = 'required'
-                kids = gen(cref, sub_mode, depth + 1, opt, here)
+                kids = gen(cref, sub_mode, depth + 1, opt, here, keep_empty)
                 if isinstance(mode, tuple) and here == mode[1] and not kids:
                     # an optional group opened alone must contain something: take its first segment
                     kids = first_segment(cref)
-                if kids:
+                if kids or keep_empty:
                     out.append(('G', cname, kids))
     return out
 
@@ -137,14 +137,14 @@ def optional_paths(ref, path=(), depth=0):
     return out
 
 
-def instances(v, name, kinds=('required', 'all', 'rep2', 'opt')):
+def instances(v, name, kinds=('required', 'all', 'rep2', 'opt'), keep_empty=False):
     """yield (kind label, tree children list) — always starting with MSH if the structure lists it"""
     ref = tables.msg_ref(v, name)
     seen = set()
     for k in kinds:
         modes = [(k, k)] if k != 'opt' else [('opt:' + '/'.join(p), ('opt', p)) for p in optional_paths(ref)]
         for label, mode in modes:
-            t = gen(ref, mode)
+            t = gen(ref, mode, keep_empty=keep_empty)
             key = repr(t)
             if key in seen:
                 continue
